@@ -1,4 +1,5 @@
 ---------------------------- MODULE MCParseCursor ----------------------------
 EXTENDS ParseCursor
 LoopsDef == {"templateNodeParser", "expressionParser"}
+LoopsOne == {"templateNodeParser"}
 =============================================================================
